@@ -247,6 +247,17 @@ def gen_cases(tier, rng):
             for part in partitions(sb, k3=False, empties=True)[:(None if thorough else 6)]:
                 for kind in fronts:
                     cases.append(("utf8\tfront\t%s\t%s" % (kind, "|".join(hx(c) for c in part)), "front"))
+    # a decoder the caller configured (new_from_encoding_rs_decoder): BOM sniffing / BOM removal / no BOM handling, on
+    # inputs that start with each BOM (and with a BOM cut by a chunk boundary), against the one-shot decode
+    boms = [b"\xef\xbb\xbf", b"\xff\xfe", b"\xfe\xff", b"\xef\xbb", b"\xff", b""]
+    tails = [b"ab", b"a\x00b\x00", b"\x00a\x00b", b"\xc3\xa9x", b"\xef\xbb\xbfz", b"\xff\xfea\x00"]
+    for label in ("utf-8", "utf-16le", "utf-16be", "windows-1252", "shift_jis", "gbk") if thorough else ("utf-8", "utf-16le", "windows-1252"):
+        for how in ("bom", "rm", "nobom"):
+            for bom in boms:
+                for tail in tails:
+                    whole = bom + tail
+                    for part in partitions(whole, k3=False, empties=True)[:(None if thorough else 5)]:
+                        cases.append(("utf8\tencd\t%s\t%s\t%s" % (label, how, "|".join(hx(c) for c in part)), "encd"))
     # reads larger than read_from's 4096-byte buffer, with a multi-byte character straddling each buffer end
     for pad in (4094, 4095, 4096, 4097, 8190, 8191, 8192):
         for ch in (b"\xc3\xa9", b"\xe2\x82\xac", b"\xf0\x9f\x98\x80", b"\xe2\x82", b"\xff"):
@@ -312,6 +323,14 @@ def oracle(line, out):
         if w[2:].rsplit(" ", 1)[0] != d:
             return "harness reference decode disagrees with Encoding::decode: %s vs %s" % (w, d)
         return None
+    if mode == "encd":
+        if " ## D=" not in out:
+            return "configured decoder %s/%s failed: %s" % (f[2], f[3], out[:200])
+        sx, dx = out.split(" ## D=")
+        if sx[2:] != dx:
+            return ("LossyDecoder::new_from_encoding_rs_decoder(%s, %s) fed in chunks gives %s, the one-shot decode with the same "
+                    "configuration gives %s" % (f[2], f[3], sx[2:], dx))
+        return None
     if mode == "front":
         if " ## W=" not in out:
             return "front end %s failed: %s" % (f[2], out[:200])
@@ -332,7 +351,7 @@ def oracle(line, out):
 
 def compare(line, impl, model):
     mode = line.split("\t")[1]
-    if mode in ("enc", "parse", "front"):
+    if mode in ("enc", "encd", "parse", "front"):
         return model == "no-model"
     return impl == model
 
